@@ -23,6 +23,7 @@ import (
 
 	"github.com/BondMachineHQ/BondMachine/pkg/bondmachine"
 	"github.com/BondMachineHQ/BondMachine/pkg/procbuilder"
+	"github.com/BondMachineHQ/BondMachine/pkg/simbox"
 
 	"verif/harness/evid"
 	"verif/harness/tlaval"
@@ -45,15 +46,16 @@ type fabEnd struct {
 type fabBond struct{ Src, Dst fabEnd }
 
 type fabMachine struct {
-	Topo    string
-	Progs   [][]fabStep
-	Pads    []int
-	Bonds   []fabBond
-	Nin     int
-	Nout    int
-	Shared  bool
-	EnvMode string
-	Outs    [][]uint64 // expected stream on every external output
+	Topo     string
+	Progs    [][]fabStep
+	Pads     []int
+	Bonds    []fabBond
+	Nin      int
+	Nout     int
+	Shared   bool
+	EnvMode  string
+	SimDelay string     // "none" or "<opcode>:<ticks>": a per-opcode delay of the simulator
+	Outs     [][]uint64 // expected stream on every external output
 }
 
 func fabProgramText(steps []fabStep, pad int) string {
@@ -166,7 +168,7 @@ func genFabrics(r *evid.Run, scratch string, budget, n int, seed int64) (out []f
 			return nil, 0, false
 		}
 		last := beh[len(beh)-1].Vars
-		m := fabMachine{Topo: tlaval.Str(last["topo"]), Shared: tlaval.Bool(last["shared"]), EnvMode: tlaval.Str(last["envmode"])}
+		m := fabMachine{Topo: tlaval.Str(last["topo"]), Shared: tlaval.Bool(last["shared"]), EnvMode: tlaval.Str(last["envmode"]), SimDelay: tlaval.Str(last["simdelay"])}
 		t := tlaval.AsRec(last["tview"])
 		m.Nin, m.Nout = int(tlaval.Int(t["nin"])), int(tlaval.Int(t["nout"]))
 		for _, pv := range tlaval.AsSeq(t["progs"]) {
@@ -276,7 +278,14 @@ func runC02(r *evid.Run) {
 			}
 		}
 		machines++
-		sres, serr := runEnvTimed(bm, input, 60*want+400, want, hold, ack)
+		var delays *simbox.SimDelays
+		if parts := strings.SplitN(f.SimDelay, ":", 2); len(parts) == 2 {
+			d, _ := strconv.Atoi(parts[1])
+			delays = onePoint(map[string]int{parts[0]: d})
+		}
+		envSimDelays = delays
+		sres, serr := runEnvTimed(bm, input, 120*want+600, want, hold, ack)
+		envSimDelays = nil
 		var hres envResult
 		sim, files, herr := elaborateBM(bm)
 		if herr == nil {
@@ -299,6 +308,9 @@ func runC02(r *evid.Run) {
 		class := f.Topo + ":" + f.EnvMode
 		if f.Shared {
 			class += ":shared-domain"
+		}
+		if f.SimDelay != "none" {
+			class += ":sim-delay-" + strings.SplitN(f.SimDelay, ":", 2)[0]
 		}
 		if serr != nil || herr != nil {
 			ctx["simulator_error"], ctx["hdl_error"] = fmt.Sprint(serr), fmt.Sprint(herr)
